@@ -1054,7 +1054,98 @@ def prefixed_error_case(ctx, rng, idx):
         ctx.violation_exc('fix_parameters_raises', e, {'case': feats}, feats)
 
 
+def dosed_after_fixing_case(ctx, rng, idx):
+    """a predictive model with fixed mechanistic parameters that is given a
+    dosing regimen (before or after the fixing) samples what the unfixed
+    model samples at the substituted vector, and reports the same dose
+    events"""
+    from chi.library import ModelLibrary
+    from harness.oracle import regimen as R
+    pop = idx % 2 == 1
+
+    def build():
+        m = ModelLibrary().one_compartment_pk_model()
+        m.set_administration('central', direct=direct)
+        pm = chi.PredictiveModel(m, [chi.GaussianErrorModel()])
+        if pop:
+            pmod = chi.PooledModel(n_dim=pm.n_parameters())
+            pmod.set_dim_names(pm.get_parameter_names())
+            pm = chi.PopulationPredictiveModel(pm, pmod)
+        return pm
+    direct = bool(rng.integers(2))
+    dose = float(rng.uniform(0.5, 3))
+    start = float(rng.uniform(0, 1))
+    duration = float(rng.uniform(0.05, 0.3))
+    period = [None, float(rng.uniform(0.4, 1.2))][int(rng.integers(2))]
+    num = None if period is None else [None, 0, int(rng.integers(1, 4))][
+        int(rng.integers(3))]
+    order = ['fix_then_regimen', 'regimen_then_fix',
+             'fix_regimen_release_one'][idx // 2 % 3]
+    times = np.array([0.5, 1.5, 3.0, 6.0])
+    feats = {'family': 'dosed_after_fixing', 'population': pop,
+             'order': order, 'periodic': period is not None,
+             'num': repr(num)}
+    ctx.case(('dosed_after_fixing', pop, order, period is None, repr(num)),
+             True, sample=dict(feats, regimen=[dose, start, duration, period,
+                                               num]))
+    try:
+        twin, fixed = build(), build()
+        names = fixed.get_parameter_names()
+        x = rng.uniform(0.5, 1.5, len(names))
+        k = int(rng.integers(1, len(names)))
+        pick = sorted(rng.permutation(len(names) - 1)[:k].tolist())
+        fx = {names[i]: float(x[i]) for i in pick}
+        twin.set_dosing_regimen(dose, start, duration, period, num)
+        if order == 'regimen_then_fix':
+            fixed.set_dosing_regimen(dose, start, duration, period, num)
+            fixed.fix_parameters(fx)
+        else:
+            fixed.fix_parameters(fx)
+            fixed.set_dosing_regimen(dose, start, duration, period, num)
+        free = np.ones(len(names), dtype=bool)
+        free[pick] = False
+        if order == 'fix_regimen_release_one':
+            j = pick[0]
+            fixed.fix_parameters({names[j]: None})
+            free[j] = True
+        seed = int(rng.integers(1, 1000))
+        a = np.asarray(fixed.sample(x[free], times, n_samples=2, seed=seed,
+                                    return_df=False), dtype=float)
+        b = np.asarray(twin.sample(x, times, n_samples=2, seed=seed,
+                                   return_df=False), dtype=float)
+        ra = fixed.get_dosing_regimen(float(times[-1]))
+        rb = twin.get_dosing_regimen(float(times[-1]))
+    except Exception as e:      # noqa
+        ctx.violation_exc('evaluation_raises_after_fixing', e,
+                          {'case': feats}, feats)
+        return
+    ctx.count('dosed_models_compared')
+    ev = R.events(dose, start, duration, period, num, float(times[-1]))
+
+    def rows(df):
+        if df is None:
+            return []
+        return sorted((float(t_), float(d_), float(a_)) for t_, d_, a_ in
+                      zip(df['Time'], df['Duration'], df['Dose']))
+    want = sorted((s_, d_, a_) for s_, d_, a_ in ev)
+    if a.shape != b.shape or not np.allclose(a, b, rtol=1e-9, atol=1e-12):
+        ctx.violation('equals_unfixed_twin_at_substituted_vector',
+                      'twin_mismatch:dosed_predictive_model:' + order,
+                      {'fixed': a, 'unfixed_twin': b, 'case': feats}, feats)
+        return
+    for tag, got in (('fixed', rows(ra)), ('unfixed', rows(rb))):
+        if len(got) != len(want) or (want and not np.allclose(
+                got, want, rtol=1e-12)):
+            ctx.violation('reported_regimen_is_the_scheduled_one',
+                          'regimen_table:%s_model' % tag,
+                          {'reported': got[:6], 'scheduled': want[:6],
+                           'case': feats}, feats)
+            return
+
+
 FAMILIES = [
+    Family('dosed_after_fixing', dosed_after_fixing_case, quick=72,
+           thorough=720),
     Family('random', random_case, quick=1600, thorough=30000),
     Family('exhaustive', exhaustive_case,
            quick=len(HISTS) * len(ADAPTERS),
